@@ -19,11 +19,14 @@ Brief == [op |-> Ev.op, fam |-> Ev.fam, ft |-> Ev.ft, label |-> Ev.label, varian
                      ELSE [nan |-> Ev.nan, pinf |-> Ev.pinf, ninf |-> Ev.ninf, panic |-> Ev.panic, nonint |-> Ev.nonint,
                            zerow |-> Ev.zerow, offenders |-> Ev.offenders, max_words |-> Ev.max_words]]
 
+\* entries beyond envelope E (variant "beyond-E") are driven only for the termination / budget rule
 Rule == IF Mode = "support"
-          THEN CASE Ev.op = "call"  -> (Ev.res = "Timeout") \/ SampleOK(Ev)      \* a hang is C05's business
+          THEN CASE Ev.variant = "beyond-E" -> TRUE
+                 [] Ev.op = "call"  -> (Ev.res = "Timeout") \/ SampleOK(Ev)      \* a hang is C05's business
                  [] Ev.op = "sweep" -> SweepOK(Ev)
                  [] OTHER -> TRUE
-          ELSE CASE Ev.op = "call"  -> CallOK(Ev)
+          ELSE CASE Ev.variant = "beyond-E" -> (Ev.op = "call" => (Ev.res # "Timeout" /\ Ev.us < MaxMicros))   \* only: returns
+                 [] Ev.op = "call"  -> CallOK(Ev)
                  [] Ev.op = "block" -> BlockOK(Ev)
                  [] Ev.op = "sweep" -> SweepBudgetOK(Ev)
                  [] OTHER -> TRUE
